@@ -5,7 +5,7 @@ open Lean Utv.J Utv.C09
 /-! C09 driver: build a logical type from an operator expression with the model of `combine`/`combine_by`/
 operators, then run the model of `logical_parse` on it over leaf tables measured on the real leaves. -/
 
-def missId : Nat := 999999
+def missId : Nat := 999   -- below Err.nonParseBase, so that `&` does not re-wrap it
 
 instance : Inhabited Err := ⟨.mk 0 []⟩
 instance : Inhabited Expr := ⟨.atom .ruleBase⟩
@@ -26,7 +26,7 @@ def combOfStr : String → Comb
 def combToStr : Comb → String
   | .all => "&" | .any => "|" | .one => "^" | .neg => "~"
 
-def atomOf (kinds : List String) (i : Nat) : Ty :=
+def simpleAtom (kinds : List String) (i : Nat) : Ty :=
   match kinds.getD i "" with
   | "cls" => .cls i
   | "rule" => .rule i
@@ -36,7 +36,16 @@ def atomOf (kinds : List String) (i : Nat) : Ty :=
   | "any" => .anyT
   | "none" => .noneV
   | "rulebase" => .ruleBase
+  | "str" => .str i
+  | "self" => .selfT i
   | _ => .cls i
+
+/-- leaf descriptor kinds; `tunion:1,2` = typing.Union of the leaves 1 and 2 -/
+def atomOf (kinds : List String) (i : Nat) : Ty :=
+  let k := kinds.getD i ""
+  if k.startsWith "tunion:" then
+    .tunion ((((k.drop 7).toString.splitOn ",").filterMap (fun s => s.toNat?)).map (simpleAtom kinds))
+  else simpleAtom kinds i
 
 mutual
 /-- JSON expression → model expression; a classmethod call (`any_of` …) is evaluated on the spot with
@@ -80,13 +89,16 @@ partial def evalJson (kinds : List String) (built : List Ty) (j : Json) (uid : N
 end
 
 partial def structToJson : Ty → Json
-  | .cls i | .rule i | .dc i => Json.mkObj [("leaf", Json.num i)]
+  | .cls i | .rule i | .dc i | .fwd i | .selfT i => Json.mkObj [("leaf", Json.num i)]
   | .ruleBase => Json.mkObj [("rulebase", Json.bool true)]
   | .anyT => Json.mkObj [("any", Json.bool true)]
   | .noneV => Json.mkObj [("none", Json.bool true)]
   | .alias k => Json.mkObj [("alias", Json.num k)]
   | .lit k => Json.mkObj [("lit", Json.num k)]
+  | .str k => Json.mkObj [("str", Json.num k)]
+  | .tunion ms => Json.mkObj [("tunion", Json.arr (ms.map structToJson).toArray)]
   | .annot k u => Json.mkObj [("annot", Json.num k), ("id", Json.num u)]
+  | .wrap t _ => structToJson t          -- the anonymous `Rule[AnyOf…]` wrapper is transparent in the structure
   | .comb c as u => Json.mkObj [("comb", Json.str (combToStr c)), ("args", Json.arr (as.map structToJson).toArray),
                                 ("id", Json.num u)]
 
@@ -115,17 +127,22 @@ def handle (j : Json) : Json :=
         | _ => ((0, false, false, 0), Json.null)
       let exact := (arr! (fld j "exact")).map fun r => match arr! r with
         | [l, v] => (nat! l, nat! v) | _ => (0, 0)
+      let checks := (arr! (fld j "checks")).map nat!
       let L : Leaves Nat :=
         { exact := fun l v => exact.contains (l, v)
+          checks := fun l => checks.contains l
           run := fun l o v =>
             match table.lookup (l, o.noDataLoss, o.noExplicitCast, v) with
             | some out =>
               (match obj? out "ok" with
                | some r => .ok (nat! r)
-               | none => .error (errOfJson (fld out "err")))
-            | none => .error (.mk missId [.mk l [], .mk v []]) }
+               | none => .error ((arr! (fld out "rec")).map errOfJson, errOfJson (fld out "err")))
+            | none => .error ([], .mk missId [.mk l [], .mk v []]) }
       let o := optsOfJson (fld j "opts")
-      let res := (evalTy L (parseArg 0 t)).run o (nat! (fld j "v"))
+      -- the error state of the context the root is called with (clean unless the case says otherwise)
+      let c0 : Ctx := { errors := (arr! (fld (fld j "ctx") "errors")).map errOfJson,
+                        tmp := (arr! (fld (fld j "ctx") "tmp")).map errOfJson }
+      let res := ((evalTy L (parseArg 0 t)).run o c0 (nat! (fld j "v"))).2
       let out := match res with
         | .ok r => Json.mkObj [("ok", Json.num r)]
         | .error e => if hasMiss e then Json.mkObj [("miss", errToJson e)] else Json.mkObj [("err", errToJson e)]
